@@ -60,6 +60,8 @@ def ratOf (t : String) : Rat :=
   | [a, b] => (a.toInt?.getD 0 : Rat) / (b.toInt?.getD 1 : Rat)
   | _ => (t.toInt?.getD 0 : Rat)
 
+def ratStr (q : Rat) : String := if q.den = 1 then toString q.num else s!"{q.num}/{q.den}"
+
 def answer (w : List String) : String :=
   let i (k : Nat) : Int := (w.getD k "0").toInt?.getD 0
   let fuel : Nat := 1000000
@@ -75,6 +77,14 @@ def answer (w : List String) : String :=
   | some "tabulation" =>
     match mixed_steps_tabulation (i 1) (i 2) with
     | .ok t => String.intercalate ";" (t.map (fun row => String.intercalate "," (row.map (fun c => s!"{c.1} {c.2.1} {c.2.2}"))))
+    | .error e => "raise:" ++ errStr e
+  | some "opt0" =>
+    match get_opt_0_table (i 1) (i 2) (ratOf (w.getD 3 "1")) (ratOf (w.getD 4 "1")) with
+    | .ok t => String.intercalate ";" (t.map (fun row => String.intercalate "," (row.map ratStr)))
+    | .error e => "raise:" ++ errStr e
+  | some "optinf" =>
+    match get_opt_inf_table (i 1) (i 2) (ratOf (w.getD 3 "1")) (ratOf (w.getD 4 "1")) (ratOf (w.getD 5 "2")) (ratOf (w.getD 6 "2")) none with
+    | .ok t => String.intercalate "," (t.map ratStr)
     | .error e => "raise:" ++ errStr e
   | some "beta" =>
     match beta (i 1) (i 2) with
